@@ -20,7 +20,7 @@ func VerifPeekLeader(l LeaderController) (term int64, status int32) {
 	return lc.term, int32(lc.status)
 }
 
-func VerifPeekFollower(f FollowerController) (term int64, status int32, lastAppended int64, commit int64) {
+func VerifPeekFollower(f FollowerController) (term int64, status int32, commit int64) {
 	fc := f.(*followerController)
-	return fc.term, int32(fc.status), fc.lastAppendedOffset, fc.commitOffset.Peek()
+	return fc.term, int32(fc.status), fc.commitOffset.Peek()
 }
